@@ -280,6 +280,13 @@ func init() {
 	addScoped("C08", "D9", in("reader/logql/"), d9)
 	addScoped("C11", "D9", in("reader/traceql/", "reader/tempo", "reader/service"), d9)
 	addScoped("C03", "O3", in("writer/"), "(O3) a handler never writes into the backing array of a slice a decoder lent it (decoders reuse their label and value slices for the following rows).")
+	s2 := "(S2) every decoder field an emitted row depends on is reset for every record on every entry (array and newline-delimited framing alike), so a record never inherits ids, tags, labels or payload of the one before it."
+	addScoped("C06", "S2", in("zipkin", "Span", "span"), s2)
+	addScoped("C03", "S2", func(k string) bool { return !hasAny(k, "zipkin") }, s2)
+	o2 := "(O2) byte slices that alias a tokenizer's buffer (jx Raw / StrBytes, Scanner.Bytes) never reach the row model without a copy."
+	addScoped("C06", "O2", in("zipkin", "Span", "span", "otlp"), o2)
+	addScoped("C03", "O2", func(k string) bool { return hasAny(k, "writer/") && !hasAny(k, "zipkin") }, o2)
+	addScoped("C09", "O2", in("reader/"), o2)
 	addScoped("C14", "H5", in(""), "(H5) no package-level variable holds SQL builder objects, so a planner that rewrites columns in place cannot change later translations.")
 	properties["C01"].Filter = keepIf(func(rule, key string) bool { return rule != "O1" || strings.HasPrefix(key, "writer/") })
 	properties["C02"].Filter = keepIf(func(rule, key string) bool { return rule != "O1" || strings.HasPrefix(key, "writer/") })
